@@ -769,6 +769,114 @@ func c09GlobSub() *engine.Sub {
 	}
 }
 
+// ---- long statement lists with one malformed statement at a chosen index ----
+
+type c09ManyStmtCase struct {
+	N     int    `json:"n"`
+	Bad   int    `json:"bad"`   // index of the malformed statement
+	Where string `json:"where"` // top | and | or-in-any
+	Bug   string `json:"bug"`   // what is wrong with it
+}
+
+func (c *c09ManyStmtCase) Weight() int { return c.N }
+
+func c09ManyStmtSub() *engine.Sub {
+	bugs := map[string]string{
+		"selector-not-string": `["==", 42, 1]`,
+		"unknown-operator":    `["nope", ".a", 1]`,
+		"bad-selector":        `["==", ".a[", 1]`,
+		"bad-pattern":         `["like", ".a", "x\\"]`,
+		"wrong-arity":         `["=="]`,
+		"nested-bad":          `["not", ["any", ".l", ["==", 7, 7]]]`,
+	}
+	return &engine.Sub{
+		Name:   "long-statement-lists-with-one-bad-statement",
+		Repeat: true,
+		Rule:   "policies of n statements (n on both sides of 10, 100, 1000, 1024, 4096, 10000 and 100000) - as the top-level list, as the operand list of an and, and as an or under an any - all well formed except ONE at an index on either side of the powers of ten and of two below n, at the first and at the last position, malformed in each of six ways; through policy.FromDagJson and policy.FromIPLD: an error (whose text can be printed) or a policy, never a panic; non-trivial = all",
+		Bound: func(t string) string {
+			return "n up to 10001 (thorough: 100001 and 1000001), ~12 positions each, 3 placements, 6 malformations, 2 decoders"
+		},
+		Gen: func(tier string, emit func(any) bool) {
+			ns := []int{2, 11, 101, 1000, 1001, 1002, 1025, 4097, 10001}
+			if tier == "thorough" {
+				ns = append(ns, 100001, 1000001)
+			}
+			for _, n := range ns {
+				set := map[int]bool{0: true, n - 1: true}
+				for _, b := range []int{9, 10, 11, 99, 100, 101, 255, 256, 999, 1000, 1001, 1023, 1024, 4095, 4096, 9999, 10000, 10001, 65535, 65536, 99999, 100000, 999999, 1000000} {
+					if b < n {
+						set[b] = true
+					}
+				}
+				for bad := range set {
+					for _, where := range []string{"top", "and", "or-in-any"} {
+						for bug := range bugs {
+							if n > 20000 && (where != "top" || (bug != "selector-not-string" && bug != "nested-bad")) {
+								continue
+							}
+							if !emit(&c09ManyStmtCase{N: n, Bad: bad, Where: where, Bug: bug}) {
+								return
+							}
+						}
+					}
+				}
+			}
+		},
+		NewCase: func() any { return &c09ManyStmtCase{} },
+		Run: func(ctx *engine.Ctx, c any) {
+			cs := c.(*c09ManyStmtCase)
+			var sb strings.Builder
+			sb.Grow(cs.N*16 + 64)
+			sb.WriteString("[")
+			for i := 0; i < cs.N; i++ {
+				if i > 0 {
+					sb.WriteString(",")
+				}
+				if i == cs.Bad {
+					sb.WriteString(bugs[cs.Bug])
+				} else {
+					sb.WriteString(`["==",".a",1]`)
+				}
+			}
+			sb.WriteString("]")
+			src := sb.String()
+			switch cs.Where {
+			case "and":
+				src = `[["and",` + src + `]]`
+			case "or-in-any":
+				src = `[["any",".l",["or",` + src + `]]]`
+			}
+			ctx.States(1)
+			ctx.Nontrivial(1)
+			for name, f := range map[string]func(){
+				"policy.FromDagJson": func() {
+					if _, err := policy.FromDagJson(src); err != nil {
+						_ = err.Error()
+					}
+				},
+				"policy.FromIPLD": func() {
+					n, err := ipld.Decode([]byte(src), dagjson.Decode)
+					if err != nil {
+						return
+					}
+					if _, err := policy.FromIPLD(n); err != nil {
+						_ = err.Error()
+					}
+				},
+			} {
+				ctx.Eval(1)
+				ctx.Trans(1)
+				if pan, stack := callNoPanic(f); pan != nil {
+					ctx.Outcome("panic")
+					ctx.Failf(cs, "panic/"+panicSite(stack), "%s panics on a list of %d statements whose statement #%d (%s, placed %s) is malformed: %v", name, cs.N, cs.Bad, cs.Bug, cs.Where, pan)
+				} else {
+					ctx.Outcome("returned")
+				}
+			}
+		},
+	}
+}
+
 // ---- E5: scaling families in a crash-isolated worker ----
 
 type scaleFamily struct {
@@ -1137,7 +1245,7 @@ func c09HangHandler(sub *engine.Sub, caseJSON string, limit time.Duration) {
 
 func C09() *engine.Check {
 	engine.HangHandler = c09HangHandler
-	subs := []*engine.Sub{c09ShortSub(), c09MutSub(), c09SignedSub(), c09EnvSub(), c09MatchSub(), c09GlobSub(), c09ScaleSub(), c09ConcSub(), concRaceSub("C09")}
+	subs := []*engine.Sub{c09ShortSub(), c09MutSub(), c09SignedSub(), c09EnvSub(), c09MatchSub(), c09GlobSub(), c09ManyStmtSub(), c09ScaleSub(), c09ConcSub(), concRaceSub("C09")}
 	for _, s := range subs {
 		if s.Name == "scaling-families-in-isolated-worker" {
 			s.HangLimit = 20 * time.Minute // its inputs run in worker processes with their own deadlines and re-runs
